@@ -28,3 +28,5 @@ def run(rep):
     cr.rule_input(rep)
     er.rule_cap(rep, "C15.errors")
     ms.rule_det(rep)
+    # no hidden state: what the property promises for one use must hold for every later use as well
+    ms.rule_stateless(rep, "C15")
